@@ -96,10 +96,10 @@ theorem processDeal_genuine (c : Cfg F G) (d : Gen F G) (m : DkgDeal F G) (hd : 
               have := hshare ⟨(i' : Int), some (priEval f (i' : Int))⟩ (by rw [← hpt]; rfl)
               simpa [hvi] using this
             have hi'' : i' = d.index := by exact_mod_cast hi'
-            have hstored : ∀ a2 dl2, (({ ver with agg := some a } : Verifier F G).unsafeSetResponse m.index true).agg = some a2 →
+            have hstored : ∀ a2 dl2, (({ ver with agg := some a, approved := r.status } : Verifier F G).unsafeSetResponse m.index true).agg = some a2 →
                 a2.deal = some dl2 → dl2 = honestDeal c.g long c.pubs f d.index := by
               intro a2 dl2 ha2 hdl2
-              rcases unsafeSet_agg ({ ver with agg := some a } : Verifier F G) m.index a rfl with hu | ⟨a', hu, _, _, ha'⟩
+              rcases unsafeSet_agg ({ ver with agg := some a, approved := r.status } : Verifier F G) m.index a rfl with hu | ⟨a', hu, _, _, ha'⟩
               · rw [hu] at ha2; injection ha2 with ha2; subst ha2
                 rcases h6 with h6 | h6
                 · rw [h6] at hdl2; cases hdl2
